@@ -257,6 +257,120 @@ theorem sinv_step (s s' : CState) (e : CEv) (hi : SInv s) (h : cstep s e = some 
     · cases h
       exact ⟨hs.uniq, trivial, trivial, hs.recr, hs.bq, (by intro x hx; cases hx)⟩
     · cases h
+  case ret id ok =>
+    split at h
+    · cases h; exact ⟨hi.uniq, hi.dom, hi.recp, hi.recr, hi.bq, hi.bp⟩
+    · cases h
+
+theorem enterCommit_replied (s : CState) (rs : List Req) (f : Bool) :
+    (enterCommit s rs f).replied = s.replied ∧ (enterCommit s rs f).rets = s.rets := by
+  unfold enterCommit; split <;> exact ⟨rfl, rfl⟩
+
+theorem settle_replied (s : CState) : (settle s).replied = s.replied ∧ (settle s).rets = s.rets := by
+  unfold settle
+  split
+  · exact enterCommit_replied _ _ _
+  · split <;> exact ⟨rfl, rfl⟩
+  · exact ⟨rfl, rfl⟩
+
+/-- every synchronous CommitMessages that returned was answered by the commit loop with that result -/
+def RetOK (s : CState) : Prop := ∀ x ∈ s.rets, ∃ r, r.id = x.1 ∧ (r, x.2) ∈ s.replied
+
+theorem retok_grow {s t : CState} (h : RetOK s) (hr : t.rets = s.rets) (hp : ∀ x ∈ s.replied, x ∈ t.replied) : RetOK t := by
+  intro x hx
+  rw [hr] at hx
+  obtain ⟨r, h1, h2⟩ := h x hx
+  exact ⟨r, h1, hp _ h2⟩
+
+theorem retok_step (s s' : CState) (e : CEv) (hi : RetOK s) (h : cstep s e = some s') : RetOK s' := by
+  have hset : RetOK (settle s) := retok_grow hi (settle_replied s).2 (by rw [(settle_replied s).1]; exact fun x hx => hx)
+  cases e <;> simp only [cstep] at h
+  case call id msgs => cases h; exact retok_grow hi rfl (fun x hx => hx)
+  case begin sync =>
+    split at h
+    · cases h; exact retok_grow hi rfl (fun x hx => hx)
+    · cases h
+  case deq commits drain =>
+    have hs : RetOK (if drain = true then s else settle s) := by split; exact hi; exact hset
+    generalize (if drain = true then s else settle s) = t at h hs
+    split at h
+    · cases h
+    · split at h
+      · split at h
+        · cases h
+          exact retok_grow hs (enterCommit_replied _ _ _).2 (by rw [(enterCommit_replied _ _ _).1]; exact fun x hx => hx)
+        · cases h; exact retok_grow hs rfl (fun x hx => hx)
+      · cases h; exact retok_grow hs rfl (fun x hx => hx)
+      · cases h
+  case attempt offs ok =>
+    generalize settle s = t at h hset
+    split at h
+    · split at h
+      · split at h
+        · cases h; exact retok_grow hset rfl (fun x hx => hx)
+        · split at h <;> (cases h; exact retok_grow hset rfl (fun x hx => hx))
+      · cases h
+    · cases h
+  case abort =>
+    generalize settle s = t at h hset
+    split at h
+    · split at h
+      · cases h; exact retok_grow hset rfl (fun x hx => hx)
+      · cases h
+    · cases h
+  case replied =>
+    split at h
+    · split at h
+      · cases h; exact retok_grow hi rfl (fun x hx => List.mem_append_left _ hx)
+      · cases h
+    · cases h
+  case reply ok' =>
+    generalize settle s = t at h hset
+    split at h
+    · split at h
+      · cases h; exact retok_grow hset rfl (fun x hx => List.mem_append_left _ hx)
+      · cases h
+    · cases h
+  case reset =>
+    generalize settle s = t at h hset
+    split at h
+    · split at h
+      · cases h; exact retok_grow hset rfl (fun x hx => hx)
+      · cases h
+    · cases h
+  case tick =>
+    generalize settle s = t at h hset
+    split at h
+    · cases h
+      exact retok_grow hset (enterCommit_replied _ _ _).2 (by rw [(enterCommit_replied _ _ _).1]; exact fun x hx => hx)
+    · cases h
+  case genEnd =>
+    generalize settle s = t at h hset
+    split at h
+    · cases h; exact retok_grow hset rfl (fun x hx => hx)
+    · cases h
+  case endLoop =>
+    generalize settle s = t at h hset
+    split at h
+    · cases h; exact retok_grow hset rfl (fun x hx => hx)
+    · cases h
+  case ret id ok =>
+    split at h
+    · rename_i hany
+      cases h
+      intro x hx
+      rcases List.mem_append.mp hx with hx | hx
+      · exact hi x hx
+      · simp at hx; subst hx
+        simp only [List.any_eq_true, Bool.and_eq_true, beq_iff_eq] at hany
+        obtain ⟨y, hy, h1, h2⟩ := hany
+        exact ⟨y.1, h1, by rw [← h2]; exact hy⟩
+    · cases h
+
+theorem retok_reachable (s : CState) (h : CReachable s) : RetOK s := by
+  induction h with
+  | init => intro x hx; cases hx
+  | step e _ hs ih => exact retok_step _ _ e ih hs
 
 theorem sinv_reachable (s : CState) (h : CReachable s) : SInv s := by
   induction h with
